@@ -5,7 +5,7 @@
     Proofs: Fd/TableProofs.v. Every statement is about [run ops init] for an ARBITRARY list of
     operations (operations naming something that does not exist are skipped by the model, so no
     well-formedness hypothesis is needed). One thread; the concurrent case is C12. *)
-From RB Require Import Base.Prelude Fd.Table Fd.History Fd.TableProofs.
+From RB Require Import Base.Prelude Fd.Table Fd.History Fd.TableProofs History.SendTakenOld.
 
 (** In every state of every history. *)
 Theorem C11_history : forall ops,
@@ -75,19 +75,33 @@ Theorem C11_push_fail : forall ops b its s',
 Proof. intros ops b its s' s. apply push_fail. apply run_inv0. Qed.
 Print Assumptions C11_push_fail.
 
-(** Sending: UNIX_FDS is the length of the body's descriptor list; the first sendmsg carries
-    one open file per descriptor that was not taken; the sender's state is untouched. *)
-Theorem C11_send : forall ops b bd s' hdr n,
+(** Sending: a body one of whose handles was taken is refused (Err, nothing on the wire, nothing
+    changed). A message that is sent carries ALL the descriptors of the body's list, in order (the
+    first sendmsg gets exactly the list's descriptors, the kernel one open file per descriptor),
+    UNIX_FDS is their number (at most 253), and the sender's state is untouched. *)
+Theorem C11_send : forall ops b bd s' r,
   let s := run ops init in
-  lookup_b s b = Some bd -> step s (Send b) = (s', RSent hdr n) ->
-  hdr = len (bfds bd) /\ n = len (get_raw_fds s bd) /\ n <= SCM_MAX_FD
-  /\ wire s' = wire s ++ [(ofds_of s (get_raw_fds s bd), bidx bd)]
-  /\ len (ofds_of s (get_raw_fds s bd)) = n
-  /\ ((forall o, In o (bfds bd) -> cell (objs s o) <> None) -> n = hdr)
-  /\ tab s' = tab s /\ objs s' = objs s /\ hnd s' = hnd s /\ cfds s' = cfds s /\ bods s' = bods s
-  /\ closes s' = closes s.
-Proof. intros ops b bd s' hdr n s. apply send_spec. apply run_inv0. Qed.
+  lookup_b s b = Some bd -> step s (Send b) = (s', r) ->
+  ((exists o, In o (bfds bd) /\ cell (objs s o) = None) -> r = RErr /\ s' = s)
+  /\ (forall hdr n, r = RSent hdr n ->
+        map (fun o => cell (objs s o)) (bfds bd) = map Some (get_raw_fds s bd)
+        /\ hdr = len (bfds bd) /\ n = hdr /\ n <= SCM_MAX_FD
+        /\ wire s' = wire s ++ [(ofds_of s (get_raw_fds s bd), bidx bd)]
+        /\ map Some (ofds_of s (get_raw_fds s bd)) = map (tab s) (get_raw_fds s bd)
+        /\ len (ofds_of s (get_raw_fds s bd)) = n
+        /\ tab s' = tab s /\ objs s' = objs s /\ hnd s' = hnd s /\ cfds s' = cfds s /\ bods s' = bods s
+        /\ closes s' = closes s)
+  /\ (r = RErr \/ exists hdr n, r = RSent hdr n).
+Proof. intros ops b bd s' r s. apply send_spec. apply run_inv0. Qed.
 Print Assumptions C11_send.
+
+(** Before commit 955c136 the message of such a body was sent, announcing more descriptors than it
+    carried (History/SendTakenOld.v). *)
+Theorem C11_old_send_refuted :
+  exists ops b hdr n, snd (send_old (run ops init) b) = RSent hdr n /\ n <> hdr
+    /\ wire (fst (send_old (run ops init) b)) = [([], [0])].
+Proof. exact SendTakenOld.C11_old_send_refuted. Qed.
+Print Assumptions C11_old_send_refuted.
 
 (** Receiving: the new message owns fresh descriptors for exactly the files attached to the
     oldest message in flight, in order, each with exactly one handle (the one in this message);
